@@ -147,6 +147,8 @@ def cmd_check(args):
     # import the code under test before forking the pool
     import vivarium  # noqa
     findings = [f for f in load_findings() if f['property'] == prop]
+    if args.noknown:
+        findings = []
     known = [f for f in findings if f.get('status') == 'known']
     known_sigs = set()
     for f in known:
@@ -297,6 +299,8 @@ def main(argv=None):
     c.add_argument('--shrink', type=int, default=400)
     c.add_argument('--noevidence', action='store_true',
                    help='development aid: do not rewrite evidence/ (used by selftests against scratch copies)')
+    c.add_argument('--noknown', action='store_true',
+                   help='development aid: ignore known_findings.json (to regenerate an example)')
     c.add_argument('--want', default=None,
                    help='development aid: only report violations whose rule:disc contains this')
     c.add_argument('--all', action='store_true',
